@@ -89,6 +89,76 @@ Proof.
   apply (desc_step d' m c x); [rewrite K by lia; exact Hc|]. apply IH. intros y Hy. apply K. pose proof (W m c Hc). lia.
 Qed.
 
+
+(* ------------------------------------------------------------------ effective entries of a pass list *)
+Lemma in_firstn_nth (l : list nat) : forall k x, In x (firstn k l) -> exists j, j < k /\ j < length l /\ nth j l 0 = x.
+Proof.
+  induction l as [|y l IH]; intros k x H; destruct k; simpl in H; try contradiction.
+  destruct H as [<-|H].
+  - exists 0. simpl. repeat split; lia.
+  - apply IH in H. destruct H as [j [A [B E]]]. exists (S j). simpl. repeat split; try lia; exact E.
+Qed.
+
+Lemma nth_in_firstn (l : list nat) : forall k j, j < k -> j < length l -> In (nth j l 0) (firstn k l).
+Proof.
+  induction l as [|y l IH]; intros k j A B; simpl in B; [lia|]. destruct k; [lia|]. simpl.
+  destruct j; [left; reflexivity|right]. apply IH; lia.
+Qed.
+
+Lemma eff_inj caches k k' : k < length caches -> k' < length caches -> eff caches k = true -> eff caches k' = true ->
+  nth k caches 0 = nth k' caches 0 -> k = k'.
+Proof.
+  intros A B E E' H. unfold eff in *. apply negb_true_iff in E. apply negb_true_iff in E'.
+  destruct (Nat.lt_trichotomy k k') as [L|[L|L]]; [|exact L|]; exfalso.
+  - assert (X : nat_mem (nth k' caches 0) (firstn k' caches) = true).
+    { apply nat_mem_In. rewrite <- H. apply nth_in_firstn; assumption. } congruence.
+  - assert (X : nat_mem (nth k caches 0) (firstn k caches) = true).
+    { apply nat_mem_In. rewrite H. apply nth_in_firstn; assumption. } congruence.
+Qed.
+
+(* a repeated entry has an earlier effective entry of the same class *)
+Lemma eff_first caches : forall k, k < length caches -> eff caches k = false ->
+  exists j, j < k /\ eff caches j = true /\ nth j caches 0 = nth k caches 0.
+Proof.
+  induction k as [k IH] using lt_wf_ind. intros A E.
+  unfold eff in E. apply negb_false_iff in E. apply nat_mem_In in E. apply in_firstn_nth in E.
+  destruct E as [j [L [B H]]]. destruct (eff caches j) eqn:Ej.
+  - exists j. repeat split; assumption.
+  - destruct (IH j L B Ej) as [j' [L' [E' H']]]. exists j'. repeat split; [lia|exact E'|congruence].
+Qed.
+
+Lemma next_eff_aux_spec caches : forall n j, j + n = length caches ->
+  j <= next_eff_aux caches n j <= length caches /\
+  (forall i, j <= i < next_eff_aux caches n j -> eff caches i = false) /\
+  (next_eff_aux caches n j < length caches -> eff caches (next_eff_aux caches n j) = true).
+Proof.
+  induction n as [|n IH]; intros j H; simpl.
+  - repeat split; intros; lia.
+  - destruct (eff caches j) eqn:E.
+    + repeat split; intros; try lia. exact E.
+    + destruct (IH (S j)) as (A & B & Cc); [lia|]. repeat split; try lia.
+      * intros i Hi. destruct (Nat.eq_dec i j) as [->|N]; [exact E|apply B; lia].
+      * exact Cc.
+Qed.
+
+Lemma next_eff_spec caches j : j <= length caches ->
+  j <= next_eff caches j <= length caches /\
+  (forall i, j <= i < next_eff caches j -> eff caches i = false) /\
+  (next_eff caches j < length caches -> eff caches (next_eff caches j) = true).
+Proof. intros H. unfold next_eff. apply next_eff_aux_spec. lia. Qed.
+
+(* a later position that is effective (or the end) is not skipped *)
+Lemma next_eff_le caches k s : S k <= s -> s <= length caches -> (s < length caches -> eff caches s = true) ->
+  next_eff caches (S k) <= s.
+Proof.
+  intros A B E. destruct (next_eff_spec caches (S k)) as (L & G & _); [lia|].
+  destruct (Nat.le_gt_cases (next_eff caches (S k)) s) as [X|X]; [exact X|].
+  assert (eff caches s = false) by (apply G; lia). rewrite E in H; [discriminate|lia].
+Qed.
+
+Lemma eff_0 caches : eff caches 0 = true.
+Proof. reflexivity. Qed.
+
 Ltac splits := lazymatch goal with |- _ /\ _ => split; [|splits] | _ => idtac end.
 
 Section Proofs.
@@ -115,17 +185,18 @@ Section Proofs.
   Notation package := (package C IO FIO).
   Notation log_keys := (log_keys IO FIO).
 
-  (* the pass list names no class twice: every entry has its own class-level cache *)
-  Hypothesis caches_nodup : NoDup caches.
+  (* the flattening entry and the marking entry are not repeats of an earlier entry of the same class *)
+  Hypothesis bf_eff : eff caches bf = true.
+  Hypothesis mk_eff : eff caches mk = true.
   (* frame conditions: bundle-level io is not changed before the flattening entry, flattened io not after it *)
   Hypothesis frame_bundle : forall k m vs c, k < bf -> bio (body k m vs c) = bio c.
   Hypothesis frame_flat : forall k m vs c, bf < k -> fio (body k m vs c) = fio c.
 
-  Lemma cache_of_inj k k' : k < P -> k' < P -> cache_of k = cache_of k' -> k = k'.
-  Proof.
-    intros H1 H2 E. unfold C07PassMgr.cache_of in E.
-    apply (proj1 (NoDup_nth caches 0) caches_nodup k k' H1 H2 E).
-  Qed.
+  Notation effb := (eff caches).
+  Notation nexte := (next_eff caches).
+
+  Lemma cache_of_inj k k' : k < P -> k' < P -> effb k = true -> effb k' = true -> cache_of k = cache_of k' -> k = k'.
+  Proof. intros H1 H2 E1 E2 E. unfold C07PassMgr.cache_of in E. apply (eff_inj caches k k' H1 H2 E1 E2 E). Qed.
 
   (* ---------------------------------------------------------------- the canonical content: a function of the design *)
   Definition cv (F : mid -> C) (k : nat) (c : mid) : view IO FIO :=
@@ -134,7 +205,7 @@ Section Proofs.
   Fixpoint iter_passes (views : nat -> list (view IO FIO)) (m : mid) (k : nat) : C :=
     match k with
     | 0 => init m
-    | S k' => body k' m (views k') (iter_passes views m k')
+    | S k' => if effb k' then body k' m (views k') (iter_passes views m k') else iter_passes views m k'
     end.
 
   Fixpoint canon_f (d : design) (fuel : nat) (k : nat) (m : mid) : C :=
@@ -171,9 +242,20 @@ Section Proofs.
   Lemma canon_0 d m : canon d 0 m = init m.
   Proof. reflexivity. Qed.
 
-  Lemma canon_S d k m : WF d -> canon d (S k) m = body k m (map (cview d k) (kids d m)) (canon d k m).
+  Lemma canon_skip d k m : effb k = false -> canon d (S k) m = canon d k m.
+  Proof. intros E. unfold canon. simpl. rewrite E. reflexivity. Qed.
+
+  Lemma canon_skip_range d m a : forall b, a <= b -> (forall i, a <= i < b -> effb i = false) -> canon d b m = canon d a m.
   Proof.
-    intros W. unfold canon. simpl. f_equal. apply map_ext_in. intros c Hc. unfold cview. apply cv_ext. intros _.
+    induction b as [|b IH]; intros L H.
+    - replace a with 0 by lia. reflexivity.
+    - destruct (Nat.eq_dec a (S b)) as [->|N]; [reflexivity|].
+      rewrite canon_skip by (apply H; lia). apply IH; [lia|]. intros i Hi. apply H. lia.
+  Qed.
+
+  Lemma canon_S d k m : WF d -> effb k = true -> canon d (S k) m = body k m (map (cview d k) (kids d m)) (canon d k m).
+  Proof.
+    intros W E. unfold canon. simpl. rewrite E. f_equal. apply map_ext_in. intros c Hc. unfold cview. apply cv_ext. intros _.
     unfold canon. pose proof (W m c Hc). apply (canon_f_agree d d (S m) W); [reflexivity|lia|lia|lia].
   Qed.
 
@@ -185,14 +267,16 @@ Section Proofs.
   Lemma canon_bio d k m : WF d -> k <= bf -> bio (canon d k m) = bio (init m).
   Proof.
     intros W. induction k as [|k IH]; intros H; [reflexivity|].
-    rewrite canon_S by exact W. rewrite frame_bundle by lia. apply IH. lia.
+    destruct (effb k) eqn:E; [|rewrite canon_skip by exact E; apply IH; lia].
+    rewrite canon_S by assumption. rewrite frame_bundle by lia. apply IH. lia.
   Qed.
 
   Lemma canon_fio d k m : WF d -> bf < k -> fio (canon d k m) = fio (canon d (S bf) m).
   Proof.
     intros W. induction k as [|k IH]; intros H; [lia|].
     destruct (Nat.eq_dec k bf) as [->|N]; [reflexivity|].
-    rewrite canon_S by exact W. rewrite frame_flat by lia. apply IH. lia.
+    destruct (effb k) eqn:E; [|rewrite canon_skip by exact E; apply IH; lia].
+    rewrite canon_S by assumption. rewrite frame_flat by lia. apply IH. lia.
   Qed.
 
   (* ---------------------------------------------------------------- the visit log *)
@@ -204,13 +288,13 @@ Section Proofs.
       LogOK d l ->
       ~ In (k, m) (log_keys l) ->                              (* a body runs at most once per (entry, module) *)
       (forall c, In c (kids d m) -> In (k, c) (log_keys l)) -> (* children before parents *)
-      (forall k', k' < k -> In (k', m) (log_keys l)) ->        (* in pass order *)
+      (forall k', k' < k -> effb k' = true -> In (k', m) (log_keys l)) ->   (* in pass order *)
       LogOK d ((k, m, vs) :: l).
 
   (* ---------------------------------------------------------------- the invariant *)
   Record Inv (st : state) : Prop := {
     i_wf : WF (s_design st);
-    i_done : forall k m, k < P -> (s_done st (cache_of k) m = true <-> k < s_stage st m);
+    i_done : forall k m, k < P -> effb k = true -> (s_done st (cache_of k) m = true <-> k < s_stage st m);
     i_content : forall m, s_content st m = canon (s_design st) (s_stage st m) m;
     i_snap : forall m, s_snap st m = if bf <? s_stage st m then Some (bio (init m)) else None;
     i_kids : forall m c, In c (kids (s_design st) m) -> s_stage st m <= s_stage st c;
@@ -218,14 +302,16 @@ Section Proofs.
     i_le : forall m, s_stage st m <= P;
     i_new : forall m, length (s_design st) <= m -> s_stage st m = 0;
     i_marked : forall m, s_marked st m = (mk <? s_stage st m);
-    i_login : forall k m, In (k, m) (log_keys (s_log st)) <-> k < s_stage st m;
+    i_login : forall k m, In (k, m) (log_keys (s_log st)) <-> (effb k = true /\ k < s_stage st m);
+    i_seff : forall m, s_stage st m < P -> effb (s_stage st m) = true;
     i_log : LogOK (s_design st) (s_log st);
     i_reads : forall k m vs, In (k, m, vs) (s_log st) -> vs = map (cview (s_design st) k) (kids (s_design st) m)
   }.
 
   Lemma inv_init d : WF d -> Inv (init_state d).
   Proof.
-    intros W. constructor; simpl; auto; try (intros; lia). constructor.
+    intros W. constructor; simpl; auto; try (intros; lia); try (intros k m; split; [contradiction|intros [_ H]; lia]).
+    constructor.
   Qed.
 
   (* what a body reads from its children is the canonical view, whatever the history *)
@@ -250,40 +336,47 @@ Section Proofs.
 
   (* the pass body of entry k on module m, when m has had exactly k bodies and its children more than k *)
   Lemma run_body_ok st k m :
-    Inv st -> k < P -> m < length (s_design st) -> s_stage st m = k ->
+    Inv st -> k < P -> effb k = true -> m < length (s_design st) -> s_stage st m = k ->
     (forall c, In c (kids (s_design st) m) -> k < s_stage st c) ->
     Inv (run_body (s_design st) k m st).
   Proof.
-    intros I Hk Hm Hs Hkids. pose proof (i_wf st I) as W.
+    intros I Hk Ek Hm Hs Hkids. pose proof (i_wf st I) as W.
     pose proof (views_canonical st k m I Hkids) as HV.
     assert (Hcm : forall c, In c (kids (s_design st) m) -> c <> m) by (intros c Hc; pose proof (W m c Hc); lia).
-    constructor; cbn [C07PassMgr.run_body s_design s_done s_content s_snap s_marked s_stage s_log s_err].
+    destruct (next_eff_spec caches (S k)) as (N1 & N2 & N3); [lia|]. set (k2 := nexte (S k)) in *.
+    (* an effective entry is not inside the skipped range *)
+    assert (Gap : forall j, effb j = true -> (j < k2 <-> j <= k)).
+    { intros j Ej. split; [|lia]. intros L. destruct (Nat.le_gt_cases j k) as [X|X]; [exact X|].
+      rewrite N2 in Ej by lia. discriminate. }
+    constructor; cbn [C07PassMgr.run_body s_design s_done s_content s_snap s_marked s_stage s_log s_err]; fold k2.
     - exact W.
-    - intros k' x Hk'. unfold upd2.
+    - intros k' x Hk' Ek'. unfold upd2.
       destruct (Nat.eq_dec x m) as [->|Nx].
       + rewrite upd_same, Nat.eqb_refl, andb_true_r.
         destruct (cache_of k' =? cache_of k) eqn:E.
-        * apply Nat.eqb_eq in E. apply cache_of_inj in E; [|assumption|assumption]. subst k'. split; [lia|reflexivity].
-        * rewrite (i_done st I k' m Hk'). rewrite Hs.
+        * apply Nat.eqb_eq in E. apply cache_of_inj in E; try assumption. subst k'. split; [lia|reflexivity].
+        * rewrite (i_done st I k' m Hk' Ek'). rewrite Hs. rewrite (Gap k' Ek').
           assert (k' <> k) by (intros ->; rewrite Nat.eqb_refl in E; discriminate). lia.
       + rewrite upd_other by exact Nx.
         replace (x =? m) with false by (symmetry; apply Nat.eqb_neq; exact Nx). rewrite andb_false_r.
-        apply (i_done st I k' x Hk').
+        apply (i_done st I k' x Hk' Ek').
     - intros x. destruct (Nat.eq_dec x m) as [->|Nx].
-      + rewrite !upd_same. rewrite canon_S by exact W. rewrite HV. rewrite (i_content st I m), Hs. reflexivity.
+      + rewrite !upd_same. rewrite (canon_skip_range (s_design st) m (S k) k2) by (try lia; exact N2).
+        rewrite canon_S by assumption. rewrite HV. rewrite (i_content st I m), Hs. reflexivity.
       + rewrite !upd_other by exact Nx. apply (i_content st I x).
     - intros x. destruct (k =? bf) eqn:E.
       + apply Nat.eqb_eq in E. destruct (Nat.eq_dec x m) as [->|Nx].
-        * rewrite !upd_same. replace (bf <? S (s_stage st m)) with true by (symmetry; apply Nat.ltb_lt; lia).
+        * rewrite !upd_same. replace (bf <? k2) with true by (symmetry; apply Nat.ltb_lt; lia).
           rewrite (i_content st I m), Hs. rewrite canon_bio; [reflexivity|exact W|lia].
         * rewrite !upd_other by exact Nx. apply (i_snap st I x).
       + apply Nat.eqb_neq in E. destruct (Nat.eq_dec x m) as [->|Nx].
-        * rewrite upd_same. rewrite (i_snap st I m). rewrite Hs.
-          destruct (bf <? k) eqn:E1; destruct (bf <? S k) eqn:E2; try reflexivity;
+        * rewrite upd_same. rewrite (i_snap st I m). rewrite Hs. pose proof (Gap bf bf_eff) as Gb.
+          destruct (bf <? k) eqn:E1; destruct (bf <? k2) eqn:E2; try reflexivity;
             [apply Nat.ltb_lt in E1; apply Nat.ltb_ge in E2; lia | apply Nat.ltb_ge in E1; apply Nat.ltb_lt in E2; lia].
         * rewrite upd_other by exact Nx. apply (i_snap st I x).
     - intros x c Hc. destruct (Nat.eq_dec x m) as [->|Nx].
-      + rewrite upd_same. rewrite upd_other by (apply Hcm; exact Hc). pose proof (Hkids c Hc). lia.
+      + rewrite upd_same. rewrite upd_other by (apply Hcm; exact Hc). pose proof (Hkids c Hc).
+        apply next_eff_le; [lia|apply (i_le st I c)|apply (i_seff st I c)].
       + rewrite (upd_other _ m _ x Nx). destruct (Nat.eq_dec c m) as [->|Nc].
         * rewrite upd_same. pose proof (i_kids st I x m Hc). lia.
         * rewrite upd_other by exact Nc. apply (i_kids st I x c Hc).
@@ -295,21 +388,23 @@ Section Proofs.
         * rewrite !upd_same. symmetry. apply Nat.ltb_lt. lia.
         * rewrite !upd_other by exact Nx. apply (i_marked st I x).
       + apply Nat.eqb_neq in E. destruct (Nat.eq_dec x m) as [->|Nx].
-        * rewrite upd_same. rewrite (i_marked st I m). rewrite Hs.
-          destruct (mk <? k) eqn:E1; destruct (mk <? S k) eqn:E2; try reflexivity;
+        * rewrite upd_same. rewrite (i_marked st I m). rewrite Hs. pose proof (Gap mk mk_eff) as Gm.
+          destruct (mk <? k) eqn:E1; destruct (mk <? k2) eqn:E2; try reflexivity;
             [apply Nat.ltb_lt in E1; apply Nat.ltb_ge in E2; lia | apply Nat.ltb_ge in E1; apply Nat.ltb_lt in E2; lia].
         * rewrite upd_other by exact Nx. apply (i_marked st I x).
     - intros k' x. rewrite log_keys_cons. simpl. rewrite (i_login st I k' x).
       destruct (Nat.eq_dec x m) as [->|Nx].
       + rewrite upd_same. rewrite Hs. split.
-        * intros [E|L]; [inversion E; lia|lia].
-        * intros L. destruct (Nat.eq_dec k' k) as [->|N]; [left; reflexivity|right; lia].
+        * intros [E|[E L]]; [inversion E; subst k'; split; [exact Ek|lia]|split; [exact E|lia]].
+        * intros [E L]. destruct (Nat.eq_dec k' k) as [->|N]; [left; reflexivity|right]. split; [exact E|].
+          apply (Gap k' E) in L. lia.
       + rewrite upd_other by exact Nx. split; [intros [E|L]; [inversion E; congruence|exact L]|intros L; right; exact L].
+    - intros x. destruct (Nat.eq_dec x m) as [->|Nx]; [rewrite upd_same; exact N3|rewrite upd_other by exact Nx; apply (i_seff st I x)].
     - constructor.
       + apply (i_log st I).
       + rewrite (i_login st I k m). lia.
-      + intros c Hc. rewrite (i_login st I k c). apply Hkids. exact Hc.
-      + intros k' L. rewrite (i_login st I k' m). lia.
+      + intros c Hc. rewrite (i_login st I k c). split; [exact Ek|apply Hkids; exact Hc].
+      + intros k' L E'. rewrite (i_login st I k' m). split; [exact E'|lia].
     - intros k' x vs [E|Hin].
       + inversion E. subst k' x vs. exact HV.
       + apply (i_reads st I k' x vs Hin).
@@ -321,15 +416,15 @@ Section Proofs.
     (forall x, s_stage st x <= s_stage st' x) /\ (forall x, m < x -> s_stage st' x = s_stage st x).
 
   Lemma visit_ok : forall fuel k m st,
-    Inv st -> k < P -> m < fuel -> m < length (s_design st) -> k <= s_stage st m ->
+    Inv st -> k < P -> effb k = true -> m < fuel -> m < length (s_design st) -> k <= s_stage st m ->
     visit_post k m st (visit (s_design st) fuel k m st).
   Proof.
-    unfold visit_post. induction fuel as [|f IH]; intros k m st I Hk Hf Hm Hs; [lia|].
+    unfold visit_post. induction fuel as [|f IH]; intros k m st I Hk Ek Hf Hm Hs; [lia|].
     cbn [C07PassMgr.visit]. destruct (s_done st (cache_of k) m) eqn:D.
-    - splits; auto. apply (i_done st I k m Hk). exact D.
+    - splits; auto. apply (i_done st I k m Hk Ek). exact D.
     - assert (Hsk : s_stage st m = k).
       { destruct (Nat.eq_dec (s_stage st m) k) as [E|N]; [exact E|].
-        assert (L : k < s_stage st m) by lia. apply (i_done st I k m Hk) in L. congruence. }
+        assert (L : k < s_stage st m) by lia. apply (i_done st I k m Hk Ek) in L. congruence. }
       pose proof (i_wf st I) as W.
       (* the children, in instance order *)
       assert (HK : forall ks st0, Inv st0 -> s_design st0 = s_design st ->
@@ -341,7 +436,7 @@ Section Proofs.
         - splits; auto. intros c [].
         - destruct (H0 c (or_introl eq_refl)) as [Hc1 Hc2].
           assert (V : visit_post k c st0 (visit (s_design st0) f k c st0)).
-          { apply IH; [exact I0|exact Hk|lia|rewrite D0; lia|exact Hc2]. }
+          { apply IH; [exact I0|exact Hk|exact Ek|lia|rewrite D0; lia|exact Hc2]. }
           rewrite D0 in V. destruct V as (I1 & D1 & S1 & M1 & F1).
           set (st1 := visit (s_design st) f k c st0) in *.
           destruct (IHks st1 I1 (eq_trans D1 D0)) as (I2 & D2 & S2 & M2 & F2).
@@ -354,12 +449,12 @@ Section Proofs.
       { intros c Hc. split; [apply W; exact Hc|]. pose proof (i_kids st I m c Hc). lia. }
       set (st1 := fold_left (fun s c => visit (s_design st) f k c s) (kids (s_design st) m) st) in *.
       assert (R : Inv (run_body (s_design st1) k m st1)).
-      { apply run_body_ok; [exact I1|exact Hk|rewrite D1; exact Hm|rewrite F1 by lia; exact Hsk|].
+      { apply run_body_ok; [exact I1|exact Hk|exact Ek|rewrite D1; exact Hm|rewrite F1 by lia; exact Hsk|].
         rewrite D1. exact S1. }
-      rewrite D1 in R. splits.
+      rewrite D1 in R. destruct (next_eff_spec caches (S k)) as (N1 & _ & _); [lia|]. splits.
       + exact R.
       + cbn [C07PassMgr.run_body s_design]. exact D1.
-      + cbn [C07PassMgr.run_body s_stage]. rewrite upd_same. rewrite F1 by lia. lia.
+      + cbn [C07PassMgr.run_body s_stage]. rewrite upd_same. lia.
       + intros x. cbn [C07PassMgr.run_body s_stage]. destruct (Nat.eq_dec x m) as [->|N].
         * rewrite upd_same. pose proof (M1 m). lia.
         * rewrite upd_other by exact N. apply M1.
@@ -371,10 +466,10 @@ Section Proofs.
     (forall x, s_stage st x <= s_stage st' x).
 
   Lemma pass_loop_ok tops k st :
-    Inv st -> k < P -> (forall t, In t tops -> t < length (s_design st) /\ k <= s_stage st t) ->
+    Inv st -> k < P -> effb k = true -> (forall t, In t tops -> t < length (s_design st) /\ k <= s_stage st t) ->
     call_post tops (S k) st (pass_loop (s_design st) tops st k).
   Proof.
-    intros I Hk. unfold C07PassMgr.pass_loop, call_post.
+    intros I Hk Ek. unfold C07PassMgr.pass_loop, call_post.
     assert (G : forall l st0, Inv st0 -> s_design st0 = s_design st ->
                (forall t, In t l -> t < length (s_design st) /\ k <= s_stage st0 t) ->
                let st1 := fold_left (fun s t => visit (s_design st) (S t) k t s) l st0 in
@@ -384,7 +479,7 @@ Section Proofs.
       - splits; auto. intros t [].
       - destruct (H0 t (or_introl eq_refl)) as [A B].
         assert (V : visit_post k t st0 (visit (s_design st0) (S t) k t st0)).
-        { apply visit_ok; [exact I0|exact Hk|lia|rewrite D0; exact A|exact B]. }
+        { apply visit_ok; [exact I0|exact Hk|exact Ek|lia|rewrite D0; exact A|exact B]. }
         rewrite D0 in V. destruct V as (I1 & D1 & S1 & M1 & _).
         set (st1 := visit (s_design st) (S t) k t st0) in *.
         destruct (IHl st1 I1 (eq_trans D1 D0)) as (I2 & D2 & S2 & M2).
@@ -393,6 +488,35 @@ Section Proofs.
         + intros t' [<-|Ht']; [pose proof (M2 t); lia|apply S2; exact Ht'].
         + intros x. pose proof (M1 x). pose proof (M2 x). lia. }
     intros H. destruct (G tops st I eq_refl H) as (A & B & Cc & D). splits; auto.
+  Qed.
+
+  (* a module that had every body keeps it: the call returns the state it was given *)
+  Lemma visit_done d fuel k m st : s_done st (cache_of k) m = true -> visit d fuel k m st = st.
+  Proof. intros H. destruct fuel; simpl; rewrite H; reflexivity. Qed.
+
+
+  (* every cache holds a module that is past the first entry of that cache's class *)
+  Lemma done_past st k t : Inv st -> k < P -> k < s_stage st t -> s_done st (cache_of k) t = true.
+  Proof.
+    intros I Hk L. destruct (effb k) eqn:E; [apply (i_done st I k t Hk E); exact L|].
+    destruct (eff_first caches k Hk E) as [j [Lj [Ej Hj]]].
+    unfold C07PassMgr.cache_of. rewrite <- Hj. apply (i_done st I j t); [lia|exact Ej|lia].
+  Qed.
+
+  (* a repeated entry finds every top in its class's cache: nothing happens *)
+  Lemma pass_loop_skip tops k st :
+    Inv st -> k < P -> effb k = false -> (forall t, In t tops -> k <= s_stage st t) ->
+    pass_loop (s_design st) tops st k = st /\ (forall t, In t tops -> S k <= s_stage st t).
+  Proof.
+    intros I Hk E H.
+    assert (S' : forall t, In t tops -> S k <= s_stage st t).
+    { intros t Ht. pose proof (H t Ht). destruct (Nat.eq_dec (s_stage st t) k) as [X|X]; [|lia].
+      pose proof (i_seff st I t) as Y. rewrite X in Y. rewrite Y in E; [discriminate|exact Hk]. }
+    split; [|exact S']. unfold C07PassMgr.pass_loop. clear H.
+    induction tops as [|t l IHl]; cbn [fold_left]; [reflexivity|].
+    rewrite visit_done.
+    - apply IHl. intros t' Ht'. apply S'. right. exact Ht'.
+    - apply done_past; [exact I|exact Hk|]. pose proof (S' t (or_introl eq_refl)). lia.
   Qed.
 
   Lemma elab_call_ok tops st :
@@ -406,17 +530,16 @@ Section Proofs.
     { induction n as [|n IHn]; intros a st0 Ha I0 D0 H0; cbn [seq fold_left]; unfold call_post.
       - splits; auto. intros t Hin. pose proof (H0 t Hin). lia.
       - assert (V : call_post tops (S a) st0 (pass_loop (s_design st0) tops st0 a)).
-        { apply pass_loop_ok; [exact I0|lia|]. intros t Hin. split; [rewrite D0; apply Ht; exact Hin|apply H0; exact Hin]. }
+        { destruct (effb a) eqn:Ea.
+          - apply pass_loop_ok; [exact I0|lia|exact Ea|]. intros t Hin. split; [rewrite D0; apply Ht; exact Hin|apply H0; exact Hin].
+          - destruct (pass_loop_skip tops a st0 I0) as [X Y]; [lia|exact Ea|exact H0|]. rewrite X.
+            unfold call_post. splits; auto. }
         rewrite D0 in V. destruct V as (I1 & D1 & S1 & M1).
         set (st1 := pass_loop (s_design st) tops st0 a) in *.
         destruct (IHn (S a) st1) as (I2 & D2 & S2 & M2); [lia|exact I1|exact (eq_trans D1 D0)|exact S1|].
         splits; auto; [congruence|]. intros x. pose proof (M1 x). pose proof (M2 x). lia. }
     apply (G P 0 st); [lia|exact I|reflexivity|intros; lia].
   Qed.
-
-  (* a module that had every body keeps it: the call returns the state it was given *)
-  Lemma visit_done d fuel k m st : s_done st (cache_of k) m = true -> visit d fuel k m st = st.
-  Proof. intros H. destruct fuel; simpl; rewrite H; reflexivity. Qed.
 
   Lemma elab_call_noop tops st :
     Inv st -> (forall t, In t tops -> s_stage st t = P) -> elab_call tops st = st.
@@ -428,7 +551,7 @@ Section Proofs.
       { unfold C07PassMgr.pass_loop. clear IHn. induction tops as [|t l IHl]; cbn [fold_left]; [reflexivity|].
         rewrite visit_done.
         - apply IHl. intros t' Ht'. apply H. right. exact Ht'.
-        - apply (i_done st I a t); [lia|]. rewrite (H t (or_introl eq_refl)). lia. }
+        - apply done_past; [exact I|lia|]. rewrite (H t (or_introl eq_refl)). lia. }
       rewrite E. apply IHn. lia. }
     apply G. reflexivity.
   Qed.
@@ -491,6 +614,7 @@ Section Proofs.
     - intros m Hm. rewrite app_length in Hm. simpl in Hm. apply (i_new st I). fold d. lia.
     - apply (i_marked st I).
     - apply (i_login st I).
+    - apply (i_seff st I).
     - apply (LogOK_ext d); [|apply (i_log st I)]. intros k m Hin. apply kids_app_old. apply Hold.
       apply (i_login st I) in Hin. lia.
     - intros k m vs Hin. pose proof (i_reads st I k m vs Hin) as E. fold d in E.
